@@ -1113,7 +1113,7 @@ def op_uniform(res, fam, kind, idxs):
 _REL = {"same": Fr(0), "near": Fr(1, 10 ** 10), "far": Fr(1, 10 ** 6)}
 
 
-def op_allclose(res, fam, shape, ia, ib, rel, atol):
+def op_allclose(res, fam, shape, ia, ib, rel, atol, rtol=None):
     """allclose on the same physical values written in different units; rtol=1e-8: 'near' differs by 1e-10 (close),
     'far' by 1e-6 (not close unless an absolute tolerance of 1e-5 x value, given in a third unit, is supplied),
     'confused' has the same numbers in the other unit (close only if the units are equal)"""
@@ -1128,8 +1128,10 @@ def op_allclose(res, fam, shape, ia, ib, rel, atol):
     else:
         bvals = [float(v * ma.f / mb.f * (1 + _REL[rel])) for v in vals]
         expect = rel in ("same", "near") or atol
+        if rtol is not None:  # a caller-chosen relative tolerance: 'far' differs by 1e-6, 'near' by 1e-10
+            expect = _REL[rel] <= rtol or atol
     avals = [float(v) for v in vals]
-    kw = {}
+    kw = {} if rtol is None else dict(rtol=rtol)
     if atol:
         kw["atol"] = float(Fr(1, 10 ** 5) * vals[1] * ma.f / mc.f) * uc
     if shape == "scalar":
@@ -1143,7 +1145,7 @@ def op_allclose(res, fam, shape, ia, ib, rel, atol):
         else:
             k = 1 + _REL[rel]
             b = [float(vals[0] * ma.f / mb.f * k) * ub, float(vals[1] * k) * ua, float(vals[2] * ma.f / mb.f * k) * ub]
-    case = dict(op="allclose", args=[fam, shape, ia, ib, rel, atol])
+    case = dict(op="allclose", args=[fam, shape, ia, ib, rel, atol] + ([rtol] if rtol is not None else []))
     res.states += 1
     res.transitions += 1
     res.nontrivial += 1
@@ -1297,6 +1299,8 @@ def _layer_H(res, helper):
                         for rel in ("same", "near", "far", "confused"):
                             op_allclose(res, name, shape, ia, ib, rel, False)
                         op_allclose(res, name, shape, ia, ib, "far", True)
+                        op_allclose(res, name, shape, ia, ib, "far", False, 1e-4)
+                        op_allclose(res, name, shape, ia, ib, "near", False, 1e-12)
     elif helper == "polyfit":
         for xfam, yfam in (("T+1", "L+1"), ("T+1", "conc"), ("L+1", "M+1"), ("conc", "L+1T-1")):
             xe, xu, ye, yu = _poly_units(xfam, yfam)
